@@ -1056,7 +1056,11 @@ class _Machine:
         seen = {}
         for bi in (0, 1):
             M, R = self.M[bi], self.R[bi]
-            got, exp = sorted(R.keys()), sorted(M.keys())
+            keys_ = list(R.keys())
+            if not col.check(all(isinstance(k_, str) for k_ in keys_), f"machine:{where[0]}:names",
+                             lambda: f"{where[1]}: box {bi} has keys that are not strings: {keys_!r}"):
+                continue
+            got, exp = sorted(keys_), sorted(M.keys())
             if not col.check(got == exp, f"machine:{where[0]}:names", lambda: f"{where[1]}: box {bi} names {got}, expected {exp}"):
                 continue
             for n in exp:
